@@ -35,7 +35,7 @@ type pathEnd struct {
 
 func isEngineAbort(r any) bool {
 	switch r.(type) {
-	case engineFault, unsupported, pathEnd:
+	case engineFault, unsupported, pathEnd, cutSignal, blockedSignal:
 		return true
 	}
 	return false
@@ -573,6 +573,12 @@ func (m *Machine) strBinop(op token.Token, x, y value) value {
 }
 
 func (m *Machine) binop(op token.Token, t types.Type, x, y value) value {
+	if _, ok := x.(symtok); ok {
+		x = m.resolveTok(x)
+	}
+	if _, ok := y.(symtok); ok {
+		y = m.resolveTok(y)
+	}
 	if isSym(x) || isSym(y) {
 		return m.symBinop(op, x, y)
 	}
@@ -1225,6 +1231,11 @@ func (m *Machine) sliceToArrayPointer(t_dst, t_src types.Type, x value) value {
 // builtins
 
 func (m *Machine) callBuiltin(caller *frame, fn *ssa.Builtin, args []value) value {
+	for i := range args {
+		if _, ok := args[i].(symtok); ok {
+			args[i] = m.resolveTok(args[i])
+		}
+	}
 	switch fn.Name() {
 	case "append":
 		if len(args) == 1 {
